@@ -58,6 +58,9 @@ class _Cexptrk_Potential_Function(object):
         self._expression = cexprtk.Expression(self._potential_form_tuple.expression, self._local_symbol_table)
       except cexprtk.ParseException as pe:
         raise Potential_Form_Exception("mathematical expression couldn't be parsed {}".format(pe))
+      except UnicodeEncodeError as ue:
+        # the expression library holds ASCII text only (a minus sign or a blank pasted from a paper is neither)
+        raise Potential_Form_Exception("mathematical expression couldn't be parsed, it contains a character that is not ASCII: {}".format(ue))
 
   def parse(self):
     """Parse the expression now (once every function it may call has been registered), so that a formula
